@@ -159,3 +159,22 @@ rev_fns!(u8, rt_feed_u8, rt_adv_u8, |v: i64| v as u8, |x: &u8| *x as i64);
 rev_fns!(u64, rt_feed_u64, rt_adv_u64, |v: i64| v as u64, |x: &u64| *x as i64);
 rev_fns!(E3, rt_feed_e3, rt_adv_e3, |v: i64| E3([v as u8, (v >> 8) as u8, (v >> 16) as u8]), |x: &E3| x.0[0] as i64 | (x.0[1] as i64) << 8 | (x.0[2] as i64) << 16);
 rev_fns!(E16, rt_feed_e16, rt_adv_e16, |v: i64| E16(v, !v), |x: &E16| if x.1 == !x.0 { x.0 } else { -777 });
+
+// ---- a reference-counted handle BUILT BY C through the published {instance, clone_fn, drop_fn} layout (a handle table: every clone is a NEW record,
+// the drop function releases exactly the record it is given): Rust clones it n times (clones of clones), reads the value through every handle and
+// releases them all; odd n goes through CArcSome
+#[no_mangle] pub extern "C" fn rt_arc_rev(a: CArc<u64>, n: usize) -> u64 {
+    if n % 2 == 1 {
+        let mut hs: Vec<CArcSome<u64>> = vec![a.transpose().expect("a non-empty handle")];
+        for i in 0..n { let c = hs[i].clone(); hs.push(c); }
+        let sum = hs.iter().map(|h| **h).sum();
+        for h in hs { drop(h); }
+        sum
+    } else {
+        let mut hs: Vec<CArc<u64>> = vec![a];
+        for i in 0..n { let c = hs[i].clone(); hs.push(c); }
+        let sum = hs.iter().map(|h| h.as_ref().map(|v| *v).unwrap_or(0)).sum();
+        for h in hs { drop(h); }
+        sum
+    }
+}
